@@ -791,7 +791,14 @@ def eval_constraints(sv: SpecView, c: Cand, f: Findings):
         st = meaning(cs, sv, c)
         kinds = _kinds_of_constraint(cs, sv)
         if cs.get("optional"):
-            applied = None if c.model is None else c.model.get(f"app:{cs['id']}")
+            if c.model is None:
+                # generated candidate: an optional constraint may be left unapplied, so it
+                # excludes nothing - unless a force-apply rule counts it (then: unspecified)
+                forced = any(x["kind"] == "ForceApplyNOptionalConstraints" and cs["id"] in x["constraints"] for x in sv.spec.get("constraints", []))
+                if forced:
+                    f.add("C10", "applied_not_holding", kinds, U)
+                continue
+            applied = c.model.get(f"app:{cs['id']}")
             if applied is None:
                 f.add("C10", "applied_not_holding", kinds, U)
             elif applied:
